@@ -522,14 +522,23 @@ type lazyWriter struct {
 func (lw *lazyWriter) Write(p []byte) (n int, err error) {
 	if lw.w == nil {
 		acquired := make(chan struct{})
+		// closed when withWriterFunc returns; if that happens before the
+		// callback ran, no writer could be obtained (e.g. the connection is
+		// gone) and waiting for `acquired` would block forever
+		returned := make(chan struct{})
 		go func() {
+			defer close(returned)
 			lw.withWriterFunc(func(w io.Writer) {
 				lw.w = w
 				close(acquired)
 				<-lw.done
 			})
 		}()
-		<-acquired
+		select {
+		case <-acquired:
+		case <-returned:
+			return 0, xerrors.New("failed to acquire writer")
+		}
 	}
 
 	return lw.w.Write(p)
